@@ -295,6 +295,35 @@ pub fn run_check(prop: &str, tier: &str) -> i32 {
             let n = crate::names::check_names(&rep);
             run_seq_phases_with(&rep, seq_phases(prop, tier), json!({"file_name_offsets_checked": n}))
         }
+        "C09" | "C10" => {
+            let rep = Reporter::new(prop, tier);
+            let cov = if prop == "C09" {
+                crate::imagex::run_c09(&rep, tier == "thorough")
+            } else {
+                crate::imagex::run_c10(&rep, tier == "thorough")
+            };
+            rep.finish(
+                "model_checking",
+                cov,
+                vec![
+                    "seed images are final directories of real runs over the core alphabet (depth bound), one per layout signature".into(),
+                    "expected recovered state = replay of the completely present records through the reference model".into(),
+                    "types fixed to VT".into(),
+                ],
+            )
+        }
+        "C13" => {
+            let rep = Reporter::new(prop, tier);
+            let mut cov = crate::lockx::run(&rep, tier == "thorough");
+            if let Some(o) = cov.as_object_mut() {
+                o.insert("explanation".into(), json!("process level: 3 contender processes (each may also try a second instance in-process) driven through EVERY command sequence over {open store, open dump, drop} up to the depth bound on a directory whose newest chunk has a torn tail; reference holder variable as oracle; refused attempts must leave all chunk files byte-identical. 'states' = command sequences, 'transitions' = commands executed."));
+            }
+            rep.finish(
+                "model_checking",
+                cov,
+                vec!["flock semantics of the kernel trusted".into(), "3 processes; thread-level interleavings at libc-call granularity are covered by the fine level (schedx) when built".into()],
+            )
+        }
         "C12" => {
             let rep = Reporter::new(prop, tier);
             let cov = crate::codecx::run(&rep, tier == "thorough");
